@@ -1,6 +1,7 @@
 package vc
 
 import (
+	"go/token"
 	"fmt"
 	"go/ast"
 	"go/types"
@@ -206,4 +207,105 @@ func (cr *CheckRun) CheckFS() {
 		cr.Failures = append(cr.Failures, &Failure{Prop: cr.Prop, Obl: o, Entry: "layer-G", Verdict: "violation"})
 	}
 	_ = filepath.Join
+}
+
+// CheckBasePathSource (C03, C13; Layer G, all specs): the base path handed to
+// the generator is strings.TrimSuffix(X, "/") where X is the -basepath flag or,
+// when that is empty, the decoded Path of url.Parse(servers[0].url after
+// variable substitution) -- the quantity the routing and spec-serving contracts
+// of Layer E take as "the base path". Decided by the shape of the SSA value
+// (a structural rule, no solver): any other source (EscapedPath, RawPath, the
+// raw URL, an untrimmed value) fails it.
+func (cr *CheckRun) CheckBasePathSource() {
+	rw, err := LoadRepoWorld(cr.Repo)
+	if err != nil {
+		cr.EngineErrors = append(cr.EngineErrors, "load repo: "+err.Error())
+		return
+	}
+	fn := rw.W.funcByName("(" + repoPkg + ".Generator).Generate")
+	cr.Obligations++
+	o := &Obligation{Name: "goag.(Generator).Generate/call:BasePath/source", Func: "goag.(Generator).Generate", Class: "rule", Props: []string{cr.Prop}}
+	why := "Generate not found"
+	if fn != nil {
+		why = basePathShape(fn)
+	}
+	if why == "" {
+		cr.Discharged++
+		cr.ProvedNames = append(cr.ProvedNames, o.Name)
+		cr.Functions["goag.(Generator).Generate"] = true
+		if len(cr.Samples) < 6 {
+			cr.Samples = append(cr.Samples, map[string]any{"obligation": o.Name, "status": "proved", "solver": "structural rule on the SSA value", "what": "BasePath(strings.TrimSuffix(phi(-basepath flag, url.Parse(...).Path), \"/\"))"})
+		}
+		return
+	}
+	o.Status, o.Formula = "failed", why
+	cr.Failures = append(cr.Failures, &Failure{Prop: cr.Prop, Obl: o, Entry: "layer-G", Verdict: "violation"})
+}
+
+func basePathShape(fn *ssa.Function) string {
+	var arg ssa.Value
+	for _, b := range fn.Blocks {
+		for _, in := range b.Instrs {
+			if c, ok := in.(*ssa.Call); ok {
+				if g := c.Call.StaticCallee(); g != nil && g.Name() == "BasePath" && g.Pkg != nil && strings.HasSuffix(g.Pkg.Pkg.Path(), "/generator") && len(c.Call.Args) == 1 {
+					arg = c.Call.Args[0]
+				}
+			}
+		}
+	}
+	if arg == nil {
+		return "no call generator.BasePath(...) in Generate"
+	}
+	call, ok := arg.(*ssa.Call)
+	if !ok || call.Call.StaticCallee() == nil || call.Call.StaticCallee().String() != "strings.TrimSuffix" {
+		return "the base path is not strings.TrimSuffix(..., \"/\")"
+	}
+	if s, ok := constString(call.Call.Args[1]); !ok || s != "/" {
+		return "the base path is not trimmed by exactly one \"/\""
+	}
+	var sources []ssa.Value
+	var walk func(v ssa.Value, d int)
+	seen := map[ssa.Value]bool{}
+	walk = func(v ssa.Value, d int) {
+		if seen[v] || d > 6 {
+			return
+		}
+		seen[v] = true
+		if phi, ok := v.(*ssa.Phi); ok {
+			for _, e := range phi.Edges {
+				walk(e, d+1)
+			}
+			return
+		}
+		sources = append(sources, v)
+	}
+	walk(call.Call.Args[0], 0)
+	for _, s := range sources {
+		switch x := s.(type) {
+		case *ssa.Parameter:
+			if x.Name() != "basePath" {
+				return "base path taken from parameter " + x.Name()
+			}
+		case *ssa.UnOp:
+			fa, ok := x.X.(*ssa.FieldAddr)
+			if !ok || x.Op != token.MUL {
+				return "base path source is not the Path field of the parsed URL"
+			}
+			st, _ := fa.X.Type().Underlying().(*types.Pointer).Elem().Underlying().(*types.Struct)
+			if st == nil || st.Field(fa.Field).Name() != "Path" || !isNamed(fa.X.Type().Underlying().(*types.Pointer).Elem(), "net/url", "URL") {
+				return "base path source is field " + fieldName(fa) + ", not url.URL.Path"
+			}
+			ex, ok := fa.X.(*ssa.Extract)
+			if !ok {
+				return "the URL is not the result of url.Parse"
+			}
+			pc, ok := ex.Tuple.(*ssa.Call)
+			if !ok || pc.Call.StaticCallee() == nil || pc.Call.StaticCallee().String() != "net/url.Parse" {
+				return "the URL is not the result of url.Parse"
+			}
+		default:
+			return "base path source is " + s.String() + " (" + s.Name() + "), neither the flag nor url.Parse(...).Path"
+		}
+	}
+	return ""
 }
